@@ -29,6 +29,8 @@ SPEC = {
             rule="regtest node: headers at the MTP / now+2h / nBits / PoW boundaries through ProcessNewBlockHeaders; every accepted header satisfies the own reference of the rules"),
         gen("vh_c07", "up_pow", 60000, 1000000, max_seconds_quick=600, rule="upstream fuzz target pow (asserts + sanitizers), supplementary"),
         gen("vh_c07", "up_pow_transition", 20000, 300000, max_seconds_quick=600, rule="upstream fuzz target pow_transition (required => permitted on mainnet), supplementary"),
+        # coverage-guided libFuzzer campaign on the same target (thorough tier only; fz tree = g++ trace-pc + covshim)
+        fuzz('vh_c07', 'c07_retarget', 300, max_len=256),
     ],
 }
 
